@@ -72,6 +72,11 @@ TEMPLATES = [
     "def takes(**kwargs: str) -> None: ...\ndef takes2(a: int = 0, **kwargs: {B}) -> None: ...\ndef f(key: Literal['alpha', 'beta', 'gamma', 'delta'], k2: Literal['a', 'bb', {LB}]) -> None:\n    takes(**{{key: 1}})\n    takes2(**{{key: {LA}, k2: None}})\n    takes2(**{{k2: 1.5}}, **{{key: b''}})\n",
     # sets nested inside other literal containers
     "ND = {{'k': {{'alpha', 'beta', 'gamma', {LB}}}, 'j': [{{'delta', 'epsilon'}}], 'i': ({{'zeta', 'eta'}}, 1)}}\nNF = frozenset({{frozenset({{'a', 'b'}}), frozenset({{'c', 'd'}})}})\ndef f() -> None:\n    w: int = ND\n    u: int = NF\n    reveal_type(ND['j'])\n",
+    # alternatives of an OrBound in the detail of "Cannot resolve type variables"
+    "def ob(x: Union[T, Sequence[T]], y: Callable[[T], None], z: T) -> T: ...\ndef og(a: str) -> None: ...\ndef f() -> None:\n    ob(['alpha'], og, 1.5)\n    ob([{LA}], og, {LB})\n",
+    # a fifth pair for the history search: literals that compare equal but are different objects ((1, True) == (1, 1), 0.0 == -0.0)
+    "def f() -> None:\n    print(iter((1, True)), next(iter((0.0, 2))), iter(({LA}, {LB})))\n",
+    "def f() -> None:\n    reveal_type(iter((1, 1)))\n    reveal_type(next(iter((-0.0, 2))))\n    reveal_type(iter(({LA}, {LB})))\n",
     # a fourth pair for the history search: calls of builtins whose typeshed signatures mention protocols, then the text of those signatures
     "def f(x: object) -> None:\n    print(int(3.5), len('a'), abs(-1), iter([{LA}]), sorted([{LA}]), hash({LB}))\n",
     "def f() -> None:\n    reveal_type(int)\n    reveal_type(len)\n    reveal_type(abs)\n    reveal_type(iter)\n    reveal_type(hash)\n",
@@ -132,7 +137,7 @@ def units(tier):
     n = len(corpus(tier))
     # quick: schedules for the first and the swapped variant of every template (the second variant only changes the type vocabulary); thorough: all three
     u = [("sched", tier, i) for i in range(n) if tier == "thorough" or i >= NV * len(TEMPLATES) or i % NV == 0]
-    k = 20 if tier == "quick" else 24
+    k = 22 if tier == "quick" else 26
     u += [("hist", tier, i) for i in range(k)]
     u += [("seeds", tier, 0), ("typing", tier, 0)]
     # second corpus: the programs of pyanalyze's own test-suite (props/c10_harvest.py)
@@ -278,6 +283,7 @@ def _in_child(fn):
 
 # history alphabet as (template, variant): colliding pairs first (same template in two variants; the swapped variant spells the same unions in the other order)
 HIST_ALPHA = [pidx(-12, 0), pidx(-11, 0), pidx(-9, 0), pidx(-8, 0), pidx(-7, 0), pidx(-6, 0), pidx(-5, 0), pidx(-4, 0), pidx(-1, 0), pidx(-1, "s"), pidx(8, 0), pidx(8, 1), pidx(0, 0), pidx(0, "s"), pidx(16, 0), pidx(16, 1), pidx(5, 0), pidx(5, "s"), pidx(-3, 0), pidx(-3, "s"),
+              pidx(-14, 0), pidx(-13, 0),
               pidx(4, 0), pidx(4, 1), pidx(12, 0), pidx(12, 1)]
 
 
@@ -285,7 +291,7 @@ def _hist(res, tier, first, only=None):
     _install()
     import pa.run      # import pyanalyze in the parent; no check is run here
     progs = corpus(tier)
-    k = 20 if tier == "quick" else 24
+    k = 22 if tier == "quick" else 26
     alpha = [a for a in HIST_ALPHA[:k] if a < len(progs)]
     depth = 2 if tier == "quick" else 3
 
